@@ -163,7 +163,6 @@ _v("seq", [
     ("fortran.py", "CallCode.__call__", "for", "zip(result_names, results)"),
     ("fortran.py", "CodeGeneratingTypeVisitor.visit_ArrayType", "join", "alm.f_index_names"),
     ("fortran.py", "CodeGeneratingTypeVisitor.visit_StructureType", "for", "fortran_type.members"),
-    ("fortran.py", "CodeGenerator.__call__", "for", "LoopVariableFinder()(fd.ast)"),
     ("fortran.py", "CodeGenerator.__call__", "for", "fdescrs", 5),
     ("fortran.py", "CodeGenerator.__call__", "join", "new_lines"),
     ("fortran.py", "CodeGenerator.begin_emit", "for", "self.get_called_function_names(dag)"),
@@ -291,6 +290,11 @@ _v("insens", [
     ("dag_ast.py", "create_ast_from_phase", "for", "phase.statements"),
     # sym_kind_table.set on three distinct names per component; the tables are read sorted
     ("fortran.py", "CodeGenerator.__call__", "for", "component_ids"),
+    # a set of loop counter names: (phase, counter, Integer) triples that SymbolKindFinder puts
+    # into the per-phase kind tables first; the tables are read by key or sorted
+    # (emit_def_begin's `sorted(sym_table.items())`: the order of the `integer <counter>`
+    # declarations, correspondence case CDecls of harness/c15.py) -- was listed under "seq"
+    ("fortran.py", "CodeGenerator.__call__", "for", "LoopVariableFinder()(fd.ast)"),
     # only raises for a PointerType value
     ("fortran.py", "CodeGenerator.__init__", "for", "user_type_map.items()"),
     # the comprehension is the argument of sorted(...)
